@@ -871,9 +871,96 @@ pub fn run_c04(args: &RunArgs, rep: &Reporter, keep_valid: Option<&Shared>, max_
     })
 }
 
+/// diamonds: one fragment file reached by two import statements (of two files) that name different fragments
+fn diamond_projects() -> Vec<Vec<(String, String)>> {
+    let mut out = vec![];
+    let spellings = ["./shared.graphql", "shared.graphql", "../p/shared.graphql"];
+    for sp1 in spellings {
+        for sp2 in spellings {
+            for (t1, t2) in [("S1", "S2"), ("S1", "S1, S2"), ("*", "S2"), ("S2", "*"), ("S1, S2", "S2")] {
+                for swap in [false, true] {
+                    for direct in ["", "first", "last"] {
+                        let (la, lb) = ("#import A from \"./a.graphql\"\n", "#import B from \"./b.graphql\"\n");
+                        let ld = "#import S3 from \"./shared.graphql\"\n";
+                        let mut main = String::new();
+                        if direct == "first" {
+                            main.push_str(ld);
+                        }
+                        main.push_str(&if swap { format!("{lb}{la}") } else { format!("{la}{lb}") });
+                        if direct == "last" {
+                            main.push_str(ld);
+                        }
+                        main.push_str(&format!("query Q {{ u {{ ...A friends {{ ...B }}{} }} }}\n", if direct.is_empty() { "" } else { " ...S3" }));
+                        let a = format!("#import {t1} from \"{sp1}\"\nfragment A on User {{ id ...S1 }}\n").replace("...S1", if t1.contains("S1") || t1 == "*" { "...S1" } else { "...S2" });
+                        let b = format!("#import {t2} from \"{sp2}\"\nfragment B on User {{ name ...S2 }}\n");
+                        let shared = "fragment S1 on User { age }\nfragment S2 on User { kind }\nfragment S3 on User { born }\n".to_string();
+                        out.push(vec![("/p/main.graphql".to_string(), main), ("/p/a.graphql".to_string(), a), ("/p/b.graphql".to_string(), b), ("/p/shared.graphql".to_string(), shared)]);
+                    }
+                }
+            }
+        }
+    }
+    out
+}
+
+/// Valid multi-file projects: every file, with the fragments its import lines bring in (reference closure),
+/// is judged by R-VALID-OP; when all are valid the subject's route (parse, extensions, import resolution,
+/// check of every file) must not raise a diagnostic.
+fn part_multifile(args: &RunArgs, rep: &Reporter) -> J {
+    let (_, sch) = sem_schema();
+    let s = subject_schema();
+    let mut projects: Vec<(&'static str, Vec<(String, String)>)> = vec![];
+    projects.extend(crate::c12::import_projects().into_iter().map(|p| ("three-files", p)));
+    projects.extend(crate::c12::same_specifier_projects().into_iter().map(|p| ("same-specifier-in-two-directories", p)));
+    projects.extend(diamond_projects().into_iter().map(|p| ("diamond", p)));
+    let confirmed = AtomicU64::new(0);
+    let dropped = AtomicU64::new(0);
+    crate::explore::par_for(projects.len(), args.threads, |i| {
+        let (family, files) = &projects[i];
+        // reference: every file as root
+        for r in 0..files.len() {
+            let mut order = files.clone();
+            order.swap(0, r);
+            let Ok(root_doc) = parse_exec(&order[0].1) else {
+                dropped.fetch_add(1, Ordering::Relaxed);
+                return;
+            };
+            let Some(imported) = crate::c12::ref_import_closure(&order) else {
+                dropped.fetch_add(1, Ordering::Relaxed);
+                return;
+            };
+            let mut combined = ExecDoc::default();
+            combined.defs.extend(root_doc.defs.iter().filter(|d| !matches!(d, ExecDef::Import { .. })).cloned());
+            combined.defs.extend(imported);
+            if valid_op::validate(&sch, &combined).iter().any(|f| f.rule != "frag.unused") {
+                dropped.fetch_add(1, Ordering::Relaxed);
+                return;
+            }
+        }
+        confirmed.fetch_add(1, Ordering::Relaxed);
+        let ops: Vec<(PathBuf, String)> = files.iter().map(|(p, t)| (PathBuf::from(p), t.clone())).collect();
+        let case = || json!({"part": "multifile", "family": family, "files": files});
+        let res = catch(|| {
+            let loaded = pipeline::load_operations(&ops, 1).map_err(|f| f.diags)?;
+            pipeline::check_operations(&s.schema, &loaded).map_err(|f| f.diags)
+        });
+        match res {
+            Err(p) => rep.report(Violation { key: format!("multifile.panic@{}", p.key()), what: format!("panic at {}: {}", p.site, p.msg), case: case() }),
+            Ok(Ok(())) => {}
+            Ok(Err(diags)) => {
+                let d = &diags[0];
+                let file = d.pos.map(|p| files.get(p.0.saturating_sub(1)).map(|f| f.0.clone()).unwrap_or_default()).unwrap_or_default();
+                rep.report(Violation { key: format!("multifile.rejects_valid:{}:{}[{family}]", d.stage, d.kind), what: format!("a valid multi-file project gets the diagnostic {} {} ({file})", d.kind, d.msg), case: case() });
+            }
+        }
+    });
+    json!({"projects": projects.len(), "confirmed_valid_and_checked": confirmed.load(Ordering::Relaxed), "dropped_as_not_valid_per_reference": dropped.load(Ordering::Relaxed), "families": {"three-files": 288, "same-specifier-in-two-directories": 16, "diamond": projects.iter().filter(|p| p.0 == "diamond").count()}})
+}
+
 pub fn run04(args: &RunArgs) -> i32 {
     let rep = Reporter::new("C04", &args.tier);
     crate::util::install_hook();
+    let multifile = part_multifile(args, &rep);
     let (dev, budget) = if args.quick() { (4, 45) } else { (5, 2400) };
     let j = run_c04(args, &rep, None, dev, budget);
     let sample = exec_text(&gen_doc(&mut Chooser::new(&crate::explore::Dev::from_picks(&[0, 0, 2, 0, 5, 1])), &sem_schema().1, 2, true));
@@ -886,14 +973,113 @@ pub fn run04(args: &RunArgs) -> i32 {
         "rule": "E1 type-directed documents over SEM_SCHEMA, distinct by text; non-trivial = confirmed valid by R-VALID-OP (all spec rules incl. field merging and unused variables/fragments) and therefore checked against the subject",
         "exhaustive": true,
         "detail": j,
+        "multi_file_projects": multifile,
         "samples": [sample],
     });
-    rep.finish(cov, vec!["R-VALID-OP (spec §5) decides validity".into(), "one operation file against one schema (imports are C13's business)".into()])
+    rep.finish(cov, vec!["R-VALID-OP (spec §5) decides validity".into(), "single documents, plus multi-file projects whose files are judged with the fragments a reference import closure brings in (the resolution itself is C13's business; here a valid project must stay free of diagnostics)".into()])
+}
+
+// ------------------------------------------------------------------------------------------ projects through the CLI
+
+/// faulty definitions, one per rule family (the rules themselves are decided above; here the question is
+/// whether every definition of every matched file reaches the checker, wherever it sits)
+const PROJECT_FAULTS: [(&str, &str); 12] = [
+    ("field.defined", "fragment Bad on User { nope }"),
+    ("argument.known", "fragment Bad on User { friends(last: 1) { id } }"),
+    ("directive.known", "fragment Bad on User { name @nodir }"),
+    ("fragment.type_exists", "fragment Bad on Nope { id }"),
+    ("leaf.selection", "fragment Bad on User { name { x } }"),
+    ("composite.selection", "fragment Bad on User { best }"),
+    ("spread.defined", "fragment Bad on User { ...Undefined }"),
+    ("argument.required", "fragment Bad on User { id @tag }"),
+    ("value.type", "fragment Bad on User { friends(first: \"x\") { id } }"),
+    ("spread.possible", "fragment Bad on User { ... on Post { id } }"),
+    ("operation: field.defined", "query BadOp { nope }"),
+    ("operation: variable.defined", "query BadOp { users(ids: $undefined) { id } }"),
+];
+/// the same positions holding a valid definition (control: the project must then be accepted)
+const PROJECT_CONTROLS: [&str; 2] = ["fragment Bad on User { id }", "query BadOp { n }"];
+
+/// (name, files with `@BAD@` where the definition under test goes, file that holds it)
+fn project_placements() -> Vec<(&'static str, Vec<(&'static str, &'static str)>, &'static str)> {
+    vec![
+        ("file-of-its-own-nobody-imports", vec![("src/main.graphql", "query Main { u { id } }\n"), ("src/lonely.graphql", "@BAD@\n")], "src/lonely.graphql"),
+        ("fragment-only-file-imported-by-name-for-another-fragment", vec![("src/main.graphql", "#import Good from \"./frags.graphql\"\nquery Main { u { ...Good } }\n"), ("src/frags.graphql", "fragment Good on User { id }\n@BAD@\n")], "src/frags.graphql"),
+        ("fragment-only-file-imported-by-wildcard", vec![("src/main.graphql", "#import * from \"./frags.graphql\"\nquery Main { u { ...Good } }\n"), ("src/frags.graphql", "fragment Good on User { id }\n@BAD@\n")], "src/frags.graphql"),
+        ("first-in-fragment-only-file-imported-by-name", vec![("src/main.graphql", "#import Good from \"./frags.graphql\"\nquery Main { u { ...Good } }\n"), ("src/frags.graphql", "@BAD@\nfragment Good on User { id }\n")], "src/frags.graphql"),
+        ("file-with-an-operation-imported-by-name", vec![("src/main.graphql", "#import Good from \"./other.graphql\"\nquery Main { u { ...Good } }\n"), ("src/other.graphql", "query Other { n }\nfragment Good on User { id }\n@BAD@\n")], "src/other.graphql"),
+        ("importing-file-itself", vec![("src/main.graphql", "#import Good from \"./frags.graphql\"\nquery Main { u { ...Good } }\n@BAD@\n"), ("src/frags.graphql", "fragment Good on User { id }\n")], "src/main.graphql"),
+        ("fragment-only-file-imported-transitively", vec![("src/main.graphql", "#import Mid from \"./a.graphql\"\nquery Main { u { ...Mid } }\n"), ("src/a.graphql", "#import Good from \"./deep/b.graphql\"\nfragment Mid on User { id ...Good }\n"), ("src/deep/b.graphql", "fragment Good on User { name }\n@BAD@\n")], "src/deep/b.graphql"),
+        ("fragment-only-file-imported-by-two-files", vec![("src/main.graphql", "#import Good from \"./frags.graphql\"\nquery Main { u { ...Good } }\n"), ("src/second.graphql", "#import Good from \"./frags.graphql\"\nquery Second { u { ...Good } }\n"), ("src/frags.graphql", "fragment Good on User { id }\n@BAD@\n")], "src/frags.graphql"),
+        ("fragment-only-file-in-an-import-cycle", vec![("src/main.graphql", "#import A from \"./a.graphql\"\nquery Main { u { ...A } }\n"), ("src/a.graphql", "#import B from \"./b.graphql\"\nfragment A on User { id ...B }\n"), ("src/b.graphql", "#import A from \"./a.graphql\"\nfragment B on User { name }\n@BAD@\n")], "src/b.graphql"),
+    ]
+}
+
+fn part_projects(args: &RunArgs, rep: &Reporter) -> J {
+    use crate::clilayer::{CProj, run_and_compare};
+    let placements = project_placements();
+    let mut jobs: Vec<(usize, String, Option<&'static str>)> = vec![];
+    for pi in 0..placements.len() {
+        for (rule, text) in PROJECT_FAULTS {
+            jobs.push((pi, text.to_string(), Some(rule)));
+        }
+        for text in PROJECT_CONTROLS {
+            jobs.push((pi, text.to_string(), None));
+        }
+    }
+    let accepted_controls = AtomicU64::new(0);
+    let rejected_faults = AtomicU64::new(0);
+    crate::explore::par_for(jobs.len(), args.threads, |ji| {
+        let (pi, text, rule) = &jobs[ji];
+        let (pname, files, holder) = &placements[*pi];
+        let ops: Vec<(String, String)> = files.iter().map(|(p, t)| (p.to_string(), t.replace("@BAD@", text))).collect();
+        let mut p = CProj::new(vec![("schema/s.graphql".to_string(), crate::gen_sem::SEM_SCHEMA.to_string())], ops);
+        p.resolvers_out = None;
+        p.server_out = None;
+        p.extra_generate = "      type:\n        scalarTypes:\n          Date: string\n".into();
+        let case = |extra: J| json!({"part": "projects", "placement": pname, "rule": rule, "definition": text, "project": p.to_json(), "detail": extra});
+        match run_and_compare(&p, "c03") {
+            Err(pn) => rep.report(Violation { key: format!("projects.library_panic@{}", pn.key()), what: format!("library entry points panic at {}: {}", pn.site, pn.msg), case: case(json!({})) }),
+            Ok(Err(e)) => rep.report(Violation { key: "machinery.clilayer".into(), what: e, case: case(json!({})) }),
+            Ok(Ok(r)) => {
+                for (k, w) in &r.diffs {
+                    rep.report(Violation { key: format!("projects.{k}[{pname}]"), what: w.clone(), case: case(json!({"cli_exit": r.cli.code, "cli_stdout": r.cli.stdout.chars().take(2000).collect::<String>(), "library_route": r.expected_summary})) });
+                }
+                let doc: J = serde_json::from_str(r.cli.stdout.trim()).unwrap_or(J::Null);
+                match rule {
+                    Some(rule) => {
+                        // the property itself: a violation anywhere in a matched file means check fails, naming that file
+                        let names_holder = doc["check"]["errors"].as_array().into_iter().flatten().any(|e| e["file"]["path"].as_str().is_some_and(|p| p.ends_with(holder)));
+                        if r.cli.code == Some(0) {
+                            rep.report(Violation { key: format!("projects.accepts_invalid[{pname}]"), what: format!("`check` accepts a project whose file {holder} contains a definition violating {rule}: {text}"), case: case(json!({"cli_stdout": r.cli.stdout.chars().take(2000).collect::<String>()})) });
+                        } else if !names_holder {
+                            rep.report(Violation { key: format!("projects.fault_not_located_in_its_file[{pname}]"), what: format!("`check` fails but no diagnostic names {holder}, which holds the definition violating {rule}"), case: case(json!({"cli_stdout": r.cli.stdout.chars().take(2000).collect::<String>()})) });
+                        } else {
+                            rejected_faults.fetch_add(1, Ordering::Relaxed);
+                        }
+                    }
+                    None => {
+                        if r.cli.code == Some(0) {
+                            accepted_controls.fetch_add(1, Ordering::Relaxed);
+                        }
+                    }
+                }
+            }
+        }
+    });
+    crate::cli::cleanup("c03");
+    let controls = placements.len() * PROJECT_CONTROLS.len();
+    if accepted_controls.load(Ordering::Relaxed) as usize != controls {
+        // C04's business as a verdict; here it would make the faulty runs vacuous
+        rep.report(Violation { key: "machinery.project_controls".into(), what: format!("only {} of {controls} control projects (valid definition at the same position) are accepted", accepted_controls.load(Ordering::Relaxed)), case: json!({}) });
+    }
+    json!({"placements": placements.iter().map(|p| p.0).collect::<Vec<_>>(), "faulty_definitions": PROJECT_FAULTS.len(), "projects": jobs.len(), "faulty_projects_rejected_with_the_fault_located": rejected_faults.load(Ordering::Relaxed), "control_projects_accepted": accepted_controls.load(Ordering::Relaxed)})
 }
 
 pub fn run03(args: &RunArgs) -> i32 {
     let rep = Reporter::new("C03", &args.tier);
     crate::util::install_hook();
+    let projects = part_projects(args, &rep);
     let (_, sch) = sem_schema();
     let shared = Shared { valid_docs: Mutex::new(vec![]) };
     let (dev, budget) = if args.quick() { (2, 30) } else { (3, 600) };
@@ -997,6 +1183,7 @@ pub fn run03(args: &RunArgs) -> i32 {
         "per_rule": *per_rule.lock().unwrap(),
         "mutants_not_confirmed_by_reference(dropped)": unconf,
         "generate_runs_on_accepted_invalid_documents": generate_runs.load(Ordering::Relaxed),
+        "projects_through_the_cli": projects,
         "samples": [{"rule": "input.field_known", "site": "optional-field-omitted", "text": "query Q { users ( ids : [ ] filter : { req : true zz : 1 } ) { __typename } }"}],
     });
     rep.finish(
@@ -1004,6 +1191,7 @@ pub fn run03(args: &RunArgs) -> i32 {
         vec![
             "R-VALID-OP confirms every mutant for its rule; a diagnostic of any rule the reference also reports is accepted".into(),
             "rules the statement does not list (field merging, argument/input-field uniqueness, default value types, unused variables/fragments) are not demanded".into(),
+            "projects: one faulty definition per rule family at every position a definition can take in a multi-file project (own file, fragment-only file imported by name / wildcard / transitively / by two files / in a cycle, file with an operation, the importing file); `nitrogql-cli check` must fail and name the file, and must agree with the library route; the same positions with a valid definition must be accepted".into(),
         ],
     )
 }
